@@ -248,7 +248,12 @@ def parseFileG (h : HooksG) (inner : Inner) : Nat → Bytes → St → GoM (Opti
                            attrs := rd hb 19 1, size3 := size3, state := rd hb 23 1,
                            extSize := size3, dataOffset := 24 }
     let hr ← (
-      if size3 = 0xFFFFFF then do
+      if size3 = 0xFFFFFF then
+        if r1.length < 8 then do
+          -- repaired (fixes/C02-erased-tail-24): binary.Read fails; an erased header is free space
+          let hd ← sliceToG "NewFile: buf[:FileHeaderMinLength]" buf 24
+          if hd.all (· == 0xFF) then pure none else err
+        else do
         let (eb, _) ← binaryReadG r1 8                -- &f.Header.ExtendedSize
         if fromLE eb = u64max then pure none
         else pure (some { i0 with extSize := fromLE eb, dataOffset := 32 })
